@@ -307,6 +307,14 @@ func execTreeCmd(env *Env, files Tree, cmd treeCmd, dmode string) (CLIResult, Tr
 	case "d-file":
 		// the start path leads through a regular file (stat fails with ENOTDIR, not ENOENT): the root is still the nearest ancestor
 		res = runCLI(env, dir, "", append([]string{"-d", filepath.Join(root, "regex-assembly", "notes.txt")}, cmd.args...)...)
+	case "d-marker-file":
+		// a regular FILE named regex-assembly in a sub-directory: that directory is the nearest ancestor with such an
+		// entry, so IT is the resolved root (whatever the command then makes of it) - nothing of the enclosing tree may be touched
+		_ = os.MkdirAll(filepath.Join(root, "tests"), 0o755)
+		marker := filepath.Join(root, "tests", "regex-assembly")
+		_ = os.WriteFile(marker, []byte("not a directory\n"), 0o644)
+		res = runCLI(env, dir, "", append([]string{"-d", filepath.Join(root, "tests")}, cmd.args...)...)
+		_ = os.Remove(marker)
 	case "d-missing":
 		res = runCLI(env, dir, "", append([]string{"-d", filepath.Join(root, "rules", "nosuchdir", "deeper")}, cmd.args...)...)
 	default: // cwd
@@ -323,7 +331,7 @@ func suiteTreeFrame(env *Env, res *Result) {
 	for i := 0; i < n; i++ {
 		t := genCRSTree(r)
 		for _, c := range treeCommands(t, r) {
-			dmode := r.Pick([]string{"d-root", "d-root", "d-sub", "d-rel", "cwd", "d-file", "d-missing"})
+			dmode := r.Pick([]string{"d-root", "d-root", "d-sub", "d-rel", "cwd", "d-file", "d-missing", "d-marker-file"})
 			runs = append(runs, &treeRun{t: t, cmd: c, dmode: dmode})
 		}
 	}
@@ -341,6 +349,15 @@ func suiteTreeFrame(env *Env, res *Result) {
 		input := map[string]interface{}{"command": strings.Join(x.cmd.args, " "), "root_mode": x.dmode, "tree": before}
 		if cl := exitClass(x.res); cl == "crash" || cl == "hang" {
 			res.addFailure(Failure{Kind: "C19", Shape: "command_" + cl, Input: input, Detail: clip(x.res.Stderr, 300)})
+		}
+		if x.dmode == "d-marker-file" {
+			// the resolved root is ROOT/tests: every file of the enclosing tree is outside it
+			for p, c := range x.after {
+				if old, ok := before[p]; !ok || old != c {
+					res.addFailure(Failure{Kind: "C15", Shape: "c15_write_outside_resolved_root", Input: input, Detail: p + " changed although the nearest directory with a regex-assembly entry is root/tests"})
+				}
+			}
+			continue
 		}
 		var changed []string
 		for p, c := range x.after {
@@ -481,6 +498,9 @@ func suiteTreeFrame(env *Env, res *Result) {
 	// run must fail exactly when the corresponding rewriting run changes a file, and must not write
 	byTree := map[*crsTree]map[string]*treeRun{}
 	for _, x := range runs {
+		if x.dmode == "d-marker-file" {
+			continue // resolved root is ROOT/tests: the run says nothing about the files of the tree
+		}
 		if byTree[x.t] == nil {
 			byTree[x.t] = map[string]*treeRun{}
 		}
@@ -592,6 +612,12 @@ func suiteTreeAll(env *Env, res *Result) {
 		delete(t.files, "root/regex-assembly/1234567.ra") // not addressed by update/compare, formatted by format
 		if len(ok) == 0 {
 			continue
+		}
+		if len(ok) >= 2 && r.Chance(1, 3) {
+			// two files whose line lists differ only in where a line break stands in place of a blank:
+			// nothing one file leaves behind in the process may reach the other
+			t.files["root/regex-assembly/"+ok[0].File] = "drop table\ninsert into\n"
+			t.files["root/regex-assembly/"+ok[1].File] = "drop\ntable\ninsert\ninto\n"
 		}
 		if len(ok) > 4 {
 			// the files of the targets that are not run singly must not stay for --all either
